@@ -960,7 +960,16 @@ def _load_data(rec, context):
                 cid = PixelComponentID(comp.axis, cid.label, parent=cid.parent)
                 comps[icomp] = (cid, comp)
 
-        result.add_component(comp, cid)
+    # Derived components cannot be added to an empty dataset, so if the
+    # components were reordered such that a derived one comes first, we add
+    # the others first and restore the saved order afterwards.
+    if len(comps) > 0 and isinstance(comps[0][1], DerivedComponent):
+        for cid, comp in sorted(comps, key=lambda c: isinstance(c[1], DerivedComponent)):
+            result.add_component(comp, cid)
+        result.reorder_components([cid for cid, comp in comps])
+    else:
+        for cid, comp in comps:
+            result.add_component(comp, cid)
 
     assert result._world_component_ids == []
 
